@@ -184,21 +184,7 @@ theorem short_with_only_empty_cids_falls_to_tuple (M : QuicMachine κ τ ο) (p 
 theorem short_choice_is_longest (cids : List Bytes) (payload c : Bytes) (h : shortPick cids payload = some c) :
     c ∈ cids ∧ c ≠ [] ∧ c <+: payload.drop 1 ∧ ∀ d ∈ cids, d ≠ [] → d <+: payload.drop 1 → d.length ≤ c.length := by
   obtain ⟨h1, h2, h3⟩ := shortPick_some h
-  refine ⟨h1, h2, h3, ?_⟩
-  intro d hd hne hp
-  obtain ⟨as, bs, hsplit, hbefore⟩ := (List.find?_eq_some_iff_append.mp h).2
-  have hsorted := sortCids_sorted cids
-  rw [hsplit] at hsorted
-  have hdm : d ∈ as ++ c :: bs := by rw [← hsplit]; exact mem_sortCids.mpr hd
-  rcases List.mem_append.mp hdm with hda | hdc
-  · have := hbefore d hda
-    rw [Bool.not_eq_true', ← Bool.not_eq_true, cidPrefixOf_iff] at this
-    exact absurd ⟨hne, hp⟩ this
-  · rcases List.mem_cons.mp hdc with rfl | hdb
-    · exact Nat.le_refl _
-    · have := (List.pairwise_cons.mp (List.pairwise_append.mp hsorted).2.1).1 d hdb
-      simp only [cidLe, Bool.or_eq_true, Bool.and_eq_true, decide_eq_true_eq, beq_iff_eq] at this
-      omega
+  exact ⟨h1, h2, h3, shortPick_longest h⟩
 
 /-- A short-header datagram no session takes creates nothing; a long header in fewer than 6 bytes changes nothing. -/
 theorem short_never_creates (M : QuicMachine κ τ ο) (o : Opts) (kl : List κ) (p : Pkt) :
